@@ -38,9 +38,9 @@ type c17World struct {
 	seq   int
 	known map[string]lib.KnownEntry
 	// input facts for the known-finding predicates
-	failedUse     bool
-	useWhileOpen  bool
-	restarts      int
+	failedUse    bool
+	useWhileOpen bool
+	restarts     int
 }
 
 func (w *c17World) exec(q string) error {
